@@ -261,6 +261,9 @@ struct Monitor {
     round_start: u64,
     last_outcome: char,
     first_iter: bool,
+    /// the target's true distance has been established (its reply at ttl == path length was accepted)
+    established: bool,
+    established_round: usize,
 }
 
 pub struct Case {
@@ -332,6 +335,11 @@ fn gen_cfg(rng: &mut Rng, thorough: bool) -> Cfg {
 
 /// run one scripted case on the real strategy; returns request/answer lines
 pub fn run_case(run: &mut Run, rng: &mut Rng, cfg: &Cfg, iters: usize, fault: bool, wrap_soak: bool) {
+    run_case_plan(run, rng, cfg, iters, fault, wrap_soak, VecDeque::new());
+}
+
+/// `plan`: forced (send outcomes, wait) for the first iterations of the case (directed scenarios)
+pub fn run_case_plan(run: &mut Run, rng: &mut Rng, cfg: &Cfg, iters: usize, fault: bool, wrap_soak: bool, mut plan: VecDeque<(Vec<char>, u64)>) {
     let t0 = rng.below(1000) * 1000;
     clock::enable(t0);
     let real = cfg.real();
@@ -346,20 +354,23 @@ pub fn run_case(run: &mut Run, rng: &mut Rng, cfg: &Cfg, iters: usize, fault: bo
     run.count(&format!("cfg:{}{}{}", cfg.proto, if cfg.v6 { 6 } else { 4 }, cfg.strat));
     let mut net = ScriptNet { v6: cfg.v6, sends: VecDeque::new(), dt: 0, recv: Recv::None, log: vec![] };
     let path_len = rng.range(1, u64::from(cfg.max) + 3) as u8;
-    let mut mon = Monitor { round_start: t0, last_outcome: 'o', first_iter: true, ..Default::default() };
+    let mut mon = Monitor { round_start: t0, last_outcome: 'o', first_iter: true, established: false, established_round: 0, ..Default::default() };
     let mut prev_round_probes: Vec<Probe> = vec![];
     let mut answered: Vec<Resp> = vec![];
+    // slots known to still hold an Awaited probe of an earlier round (index -> true)
+    let mut stale: Vec<bool> = vec![false; 512];
     let unit = [cfg.max_round / 6 + 1, cfg.max_round / 2 + 1, 1, cfg.grace, cfg.grace + 1, cfg.min_round, cfg.min_round + 1, cfg.max_round, cfg.max_round + 1, 0, 10_000_000];
     for _it in 0..iters {
         if st.finished(real.max_rounds) { break; }
         // ---- choose the environment of this iteration from the *real* state
-        let sends: Vec<char> = if fault && rng.chance(1, 8) {
+        let forced = plan.pop_front();
+        let sends: Vec<char> = if let Some((fs, _)) = &forced { fs.clone() } else if fault && rng.chance(1, 8) {
             match cfg.proto {
                 't' => { let n = rng.range(1, if wrap_soak { 40 } else { 4 }); let mut v = vec!['a'; n as usize]; v.push(*rng.pick(&['o', 'o', 'f', 'x'])); v }
                 _ => vec![*rng.pick(&['f', 'f', 'a', 'x'])],
             }
         } else { vec![] };
-        let dt = if wrap_soak { cfg.max_round + 1 } else { *rng.pick(&unit) };
+        let dt = if let Some((_, fdt)) = &forced { *fdt } else if wrap_soak { cfg.max_round + 1 } else { *rng.pick(&unit) };
         let now_after = clock::now_ns() + dt;
         let aw = awaited(&st);
         let choice = rng.below(100);
@@ -377,7 +388,9 @@ pub fn run_case(run: &mut Run, rng: &mut Rng, cfg: &Cfg, iters: usize, fault: bo
             Recv::Resp(r)
         } else {
             // junk: duplicate / previous round / never sent in window / out of window / foreign id / wrong tuple
-            let k = rng.below(7);
+            let count_after = usize::from(st.sequence().0 - st.round_sequence().0) + 1 + sends.len();
+            let stale_idx: Vec<usize> = (count_after..512).filter(|i| stale[*i]).collect();
+            let k = if !stale_idx.is_empty() && rng.chance(1, 2) { 7 } else { rng.below(7) };
             run.count(&format!("junk:{k}"));
             let fake = |seq: u16, rng: &mut Rng| -> Probe {
                 let mut p = aw.first().cloned().or_else(|| prev_round_probes.first().cloned()).unwrap_or_else(|| Probe {
@@ -417,6 +430,10 @@ pub fn run_case(run: &mut Run, rng: &mut Rng, cfg: &Cfg, iters: usize, fault: bo
                     let p = rng.pick(&aw).clone(); let mut r = genuine(cfg, &p, 1000 + u64::from(p.ttl.0), false, now_after, rng);
                     if let PResp::Udp { magic, plen, .. } = &mut r.proto { if rng.chance(1, 2) { *magic = false; } else { *plen = 65000; } }
                     Recv::Resp(r) }
+                7 => { // a sequence that was never sent in this round whose slot still holds an Awaited probe of an earlier round
+                    let i = *rng.pick(&stale_idx);
+                    let seq = st.round_sequence().0.wrapping_add(i as u16);
+                    let p = fake(seq, rng); Recv::Resp(genuine(cfg, &p, 1000 + rng.below(5), rng.chance(1, 2), now_after, rng)) }
                 _ => Recv::None,
             }
         };
@@ -478,6 +495,10 @@ pub fn run_case(run: &mut Run, rng: &mut Rng, cfg: &Cfg, iters: usize, fault: bo
                     mon.last_outcome = *o;
                     if p.ttl.0 != expect { run.fail("c06-ttl-order", format!("{} (ttl {} expected {expect})", ctx(), p.ttl.0)); }
                     if p.ttl.0 > cfg.max { run.fail("c06-above-max-ttl", ctx()); }
+                    // stable path: once the target's distance is established no later round probes beyond it
+                    if mon.established && before_round > mon.established_round && p.ttl.0 > path_len {
+                        run.fail("c06-above-target-distance", format!("{} (ttl {} > distance {path_len})", ctx(), p.ttl.0));
+                    }
                     if mon.target_accepted_in_round { run.fail("c06-sent-after-target", ctx()); }
                     mon.round_ttls.push(p.ttl.0);
                 }
@@ -494,6 +515,7 @@ pub fn run_case(run: &mut Run, rng: &mut Rng, cfg: &Cfg, iters: usize, fault: bo
                     run.count("genuine");
                     mon.last_accept_time = Some(now_after);
                     if p.ttl.0 >= path_len { mon.target_accepted_in_round = true; }
+                    if p.ttl.0 == path_len && !mon.established { mon.established = true; mon.established_round = before_round; }
                 }
                 // C08: publication exactly when the policy says (independent recomputation)
                 let dur = now_after.saturating_sub(mon.round_start);
@@ -508,6 +530,7 @@ pub fn run_case(run: &mut Run, rng: &mut Rng, cfg: &Cfg, iters: usize, fault: bo
                     // C07: next round starts where this one ended or at the initial sequence
                     let end = mon.round_seqs.last().map_or(before_seq_start, |s| s + 1);
                     if st.round_sequence().0 != end && st.round_sequence().0 != cfg.initial { run.fail("c07-next-round-start", ctx()); }
+                    for (i, ps) in pub_probes.borrow().iter().enumerate() { if i < 512 { stale[i] = matches!(ps, ProbeStatus::Awaited(_)); } }
                     prev_round_probes = pub_probes.borrow().iter().filter_map(|s| match s { ProbeStatus::Awaited(p) => Some(p.clone()), _ => None }).collect();
                     mon.prev_round_seqs = std::mem::take(&mut mon.round_seqs);
                     mon.round_ttls.clear();
@@ -548,6 +571,41 @@ pub fn run(rng: &mut Rng, thorough: bool, corpus: &[String]) -> Run {
         let fault = i % 3 == 0;
         let iters = if thorough { rng.range(5, 400) } else { rng.range(5, 120) } as usize;
         run_case(&mut run, rng, &cfg, iters, fault, false);
+    }
+    // directed: TCP rounds that use the whole 512-sequence budget (capacity error, never an out-of-bounds access)
+    for (i, n) in [509usize, 510, 511, 512, 513, 511, 300].iter().enumerate() {
+        let mut cfg = gen_cfg(rng, thorough);
+        while !cfg.builder_ok() { cfg = gen_cfg(rng, thorough); }
+        cfg.proto = 't'; cfg.pd = if i % 2 == 0 { Pd::Src(5000) } else { Pd::Dest(80) }; cfg.first = 1; cfg.max = 30; cfg.inflight = 24;
+        cfg.max_rounds = None; cfg.min_round = 1000; cfg.max_round = 1_000_000; cfg.grace = 10;
+        cfg.initial = *rng.pick(&[33434u16, 64511, 0]);
+        let mut plan = VecDeque::new();
+        if i == 6 { // spread collisions: hops collide twice each
+            for _ in 0..171 { plan.push_back((vec!['a', 'a', 'o'], 0)); }
+        } else {
+            let mut v = vec!['a'; *n]; v.push('o');
+            plan.push_back((v, 0));
+            plan.push_back((vec![], 0));
+            plan.push_back((vec!['a', 'o'], 0));
+        }
+        run.count("directed:tcp-capacity");
+        run_case_plan(&mut run, rng, &cfg, 200, false, false, plan);
+    }
+    // directed: stale Awaited slots + sequence wrap-around: round 0 leaves many probes awaiting, then short
+    // rounds until the sequence wraps back to the initial sequence, with junk aimed at the stale slots
+    for i in 0..(if thorough { 12 } else { 3 }) {
+        let mut cfg = gen_cfg(rng, thorough);
+        while !cfg.builder_ok() || cfg.proto == 't' { cfg = gen_cfg(rng, thorough); }
+        if i % 3 == 2 { cfg.proto = 'u'; cfg.strat = 'd'; cfg.v6 = true; cfg.pd = Pd::Src(5000); cfg.initial = 33434; }
+        else { cfg.initial = *rng.pick(&[64500u16, 64511, 64400]); }
+        cfg.first = 1; cfg.max = 30; cfg.inflight = 24; cfg.max_rounds = None;
+        cfg.min_round = 0; cfg.max_round = 1000; cfg.grace = 0;
+        let mut plan = VecDeque::new();
+        for _ in 0..12 { plan.push_back((vec![], 0)); }
+        plan.push_back((vec![], 1001));
+        for _ in 0..190 { plan.push_back((vec![], 0)); plan.push_back((vec![], 0)); plan.push_back((vec![], 1001)); }
+        run.count("directed:wrap-stale");
+        run_case_plan(&mut run, rng, &cfg, 640, false, false, plan);
     }
     // sequence wrap-around soaks: many short rounds from boundary initial sequences
     let soaks = if thorough { 60 } else { 8 };
